@@ -164,6 +164,7 @@ func genC04Bytes(r *rng, n int) {
 			var p []Step
 			var subT *Ty
 			kind := 1
+			inContract := true // the next op may stay at this path (only for paths made of steps that fit the shape)
 			cls := r.intn(100)
 			switch {
 			case wide && r.chance(6): // a STRING key step on an integer-keyed map whose raw bytes equal an existing key's (finding 408)
@@ -177,6 +178,7 @@ func genC04Bytes(r *rng, n int) {
 				if r.chance(70) {
 					kind = 2
 				}
+				inContract = false
 			case cls < 30 && len(base) > 0: // replace an existing element
 				p = base
 				subT = typeAt(root, p)
@@ -211,6 +213,7 @@ func genC04Bytes(r *rng, n int) {
 				}
 				p = append(append([]Step(nil), base...), st, Step{Kind: 1 + r.intn(5), N: int64(r.intn(3)), B: []byte("k")})
 				subT = &Ty{K: thrift.I32}
+				inContract = false
 				if r.chance(40) {
 					kind = 2
 				}
@@ -225,6 +228,7 @@ func genC04Bytes(r *rng, n int) {
 					(bad.Kind >= 3 && pk == thrift.MAP)
 				p = append(append([]Step(nil), base...), bad)
 				subT = &Ty{K: thrift.I32}
+				inContract = false
 				// a step that fits the parent's kind is an insertion point for the (wrongly typed) I32: outside the API contract
 				if r.chance(40) || fits {
 					kind = 2
@@ -296,7 +300,9 @@ func genC04Bytes(r *rng, n int) {
 			ops = append(ops, pathFields(p)...)
 			ops = append(ops, fi(int(subT.K)), fx(sb), fi(ei), fb(exist), fx(res), fi(flags))
 			done++
-			last = p
+			if inContract {
+				last = p
+			}
 			if !ok {
 				break
 			}
